@@ -48,6 +48,7 @@ def run_cases(mod, cases, R: Recorder):
     ctx = mod.setup(R) if hasattr(mod, "setup") else None
     for case in cases:
         R.current_case = case
+        t_case = time.time()
         try:
             if ctx is not None:
                 mod.run_case(case, R, ctx)
@@ -55,6 +56,7 @@ def run_cases(mod, cases, R: Recorder):
                 mod.run_case(case, R)
         except Exception as exc:  # harness error or un-judged library exception: never a verdict
             R.error(f"{type(exc).__name__}: {exc}", traceback.format_exc())
+        R.note_time(time.time() - t_case)
     R.current_case = None
     if hasattr(mod, "teardown"):
         mod.teardown(R, ctx)
@@ -229,6 +231,7 @@ def write_evidence(mod, prop, tier, seed, R, wall, n_viol, known_seen, inconclus
             "known_findings_seen": known_seen,
             "violation_mechanisms": dict(sorted(R.violation_keys.items())),
             "inconclusive": inconclusive[:10],
+            "slowest_cases": R.slowest[:3],
             "tree": bootstrap.repo_identity(),
             "exhaustive": False,
         },
